@@ -2,7 +2,7 @@
 
 A *task* is (setup_arg, [unit, ...]).  For each task a child is forked from the pristine parent; it calls
 `setup(setup_arg)` once, then `work(unit)` for each unit under a wall-clock alarm and an address-space limit, and
-streams one message per unit.  A watchdog in the parent kills a child whose current unit exceeds 3x the alarm (a
+streams one message per unit.  A watchdog in the parent kills a child whose current unit exceeds the wall fallback of the alarm (a
 hang inside C code that SIGALRM cannot interrupt), records that unit as ('hang', None) and re-forks for the rest.
 One child serves exactly one setup_arg (the tool keeps sticky option state, DESIGN.md section 1).
 """
@@ -130,7 +130,7 @@ def run_tasks(tasks, work, setup=None, unit_timeout=10.0, mem_gb=4, nproc=None, 
                     finish(j)
                     if rest:
                         pending.append((j.setup_arg, rest))
-            elif j.pos is not None and now - j.started > 3 * unit_timeout + 5:
+            elif j.pos is not None and now - j.started > (repo.WALL_FACTOR + 2) * unit_timeout + 10:
                 j.proc.kill()
                 _blame(j, "hang", on_result)
                 n_done += 1
